@@ -3,3 +3,14 @@ import ChessVerif.Props.C10
 #print axioms ChessVerif.Props.C10.no_repeat_in_two
 #print axioms ChessVerif.Props.C10.threefold_eq
 #print axioms ChessVerif.Props.C10.threefold_eq_positions
+#print axioms ChessVerif.Props.C10.C10_closed_full_holds
+#print axioms ChessVerif.Props.C10.threefold_eq_closed
+#print axioms ChessVerif.Props.C10.threefold_eq_closed_nocollision
+#print axioms ChessVerif.Props.C10.threefold_eq_closed_nc
+#print axioms ChessVerif.Props.C10.threefold_eq_closed_mv
+#print axioms ChessVerif.Props.C10.threefold_eq_closed_playable
+#print axioms ChessVerif.Props.C10.threefold_eq_closed_uci
+#print axioms ChessVerif.Props.C10.noCollision_iff_zobristInjective
+#print axioms ChessVerif.Props.C10.game_facts
+#print axioms ChessVerif.Props.C10.step_closed
+#print axioms ChessVerif.Props.C10.same_position_same_hash
